@@ -199,7 +199,16 @@ XSLTEngineImpl::reset()
 
 XSLTEngineImpl::~XSLTEngineImpl()
 {
-    reset();
+    // reset() prepares the instance for another use, which
+    // allocates memory (a new output context, a new namespaces
+    // stack).  A failure to do so must not leave the destructor.
+    try
+    {
+        reset();
+    }
+    catch(...)
+    {
+    }
 }
 
 
